@@ -369,6 +369,34 @@ class NeoxEnv:
                 raise
         rec['load_warnings'] = [str(w.message) for w in wl]
         rec['compute_inverses'] = ci
+        # every factor worker holds exactly the saved factors of its layers
+        saved_layers = torch.load(io.BytesIO(ck['kfac']),
+                                  weights_only=False).get('layers')
+        d = self.plan['kfac'].get('ckpt_dir')
+        for layer in find_instances(self.pre, self.kb.KFACBaseLayer):
+            mod = layer.module.module
+            for i, m in self.local.items():
+                if m is not mod or self.assignment.factor_worker(
+                        str(i), 'A') != self.rank:
+                    continue
+                if d:
+                    blob = self.fs.files.get(f'{d.rstrip("/")}/{i}')
+                    want = None if blob is None else torch.load(
+                        io.BytesIO(blob), weights_only=False)
+                else:
+                    want = None if saved_layers is None \
+                        else saved_layers.get(str(i))
+                if want is None:
+                    continue
+                got = layer.state_dict()
+                self.sim.probe('restored_factor_checked')
+                for fk in ('A', 'G'):
+                    if want[fk] is None:
+                        continue
+                    if got[fk] is None or got[fk].dtype != want[fk].dtype \
+                            or not torch.equal(got[fk], want[fk]):
+                        self.bad('C18.factor_not_restored', layer=i,
+                                 factor=fk)
         if self.pre.steps != ck['steps']:
             self.bad('C18.steps_not_restored', got=self.pre.steps,
                      want=ck['steps'])
@@ -663,7 +691,10 @@ def gen_neox_plan(rng: random.Random, tier: str, *, restarts: float,
         'kind': 'neox', 'pipe': pp, 'data': dp, 'model': mp,
         'hidden': mp * rng.randint(1, 3) if mp > 1 else rng.randint(2, 6),
         'inner': mp * rng.randint(1, 3) if mp > 1 else rng.randint(2, 6),
-        'blocks': rng.choice([1, 1, 2]),
+        # 5+ blocks give layer names where one is a suffix of another
+        # ('2' and '12'), which name-matching code must not confuse
+        'blocks': rng.choice([1, 1, 2, 3, 5, 6] if pp == 1
+                             else [1, 1, 2, 3]),
         'bias_col': rng.random() < 0.6, 'bias_row': rng.random() < 0.6,
         'hps': hps, 'acc': acc, 'hook': hook,
         'loss_gain': rng.choice([1.0, 3.0]),
